@@ -7,7 +7,10 @@ Tie to the source
        arguments, keys read / written / dropped) is diffed exactly against the trace printed by the Lean model
        `YModel.Sched.dmrgTrace` (about which `dmrg_reads_fresh` / `dmrg_exit_state` are proved), and the real trace
        is fed to the model's stamp checker (no missing / stale environment may be read).
-  (ii) eager oracles on the real results against dense NumPy references (see `oracles`).
+  (ii) eager oracles on the real results against dense NumPy references (see `oracles`).  The Hamiltonian handed to dmrg_ is
+       a single MPO or a sum of MPOs, each carrying its own scalar prefactor (f_j * MPO_j; the dense reference applies the
+       prefactors itself); penalised states are listed bare or as (penalty, state); with penalties the per-sweep and
+       convergence clauses are evaluated for the documented penalised operator H' = H + sum_i p_i |phi_i><phi_i|.
 This module also hosts the run-time monitor and the random Hermitian-MPO generators shared with C10.
 """
 import json
@@ -570,7 +573,7 @@ def gen_case(rng, quick, kind):
     terms = gen_terms(rng, family, sym, N, cplx=cplx, long_range=rng.random() < 0.4)
     case = {
         "kind": kind, "family": family, "sym": sym, "N": N, "terms": terms,
-        "nsplit": rng.choice([1, 1, 2, 3]) if kind == "trace" else rng.choice([1, 2]),
+        "nsplit": rng.choice([1, 1, 2, 3]) if kind == "trace" else rng.choice([1, 2, 2, 3]),
         "n": rng.choice(admissible_charges(family, sym, N)),
         "D_total": D, "dtype": "complex128" if cplx or rng.random() < 0.2 else "float64",
         "psi_seed": rng.randrange(1 << 30), "canon": rng.random() < 0.5,
@@ -1048,7 +1051,7 @@ def run(ctx):
             ctx.count("trace_cases_cut_by_budget")
             break
         case = gen_case(rng, quick, "trace")
-        case["variants"] = (i % 3 == 0)
+        case["variants"] = (i % 2 == 0)
         run_case(ctx, case)
     for i in range(n_conv):
         if time.time() - t_start > budget * 0.8:
